@@ -598,6 +598,8 @@ class ExprMixin:
       i = z3.Int('in_i')
       return [Res(st, z3.Exists([i], z3.And(0 <= i, i < container.length,
                                             self.py_eq(x, container.elt(i), st))))]
+    if isinstance(container, OpaqueContainer):
+      return [Res(st, fresh('opaque_in', B))]      # contents not modelled: either answer
     if isinstance(container, Abstract):
       self.unsupp('membership in abstract value', node)
     if isinstance(x, Abstract):
@@ -726,9 +728,13 @@ class ExprMixin:
     if cands:
       # a method only if the receiver can be an instance of the class that defines it
       conds = []
+      from pyvc.calls import is_type_obj as _is_type_obj
       for k in cands:
         cn = k.qualname.split('.')[0]
         conds.append(cls_in(h.cls(r), cn) if cn in CLASSES else z3.BoolVal(True))
+        if getattr(k, 'is_classmethod', False) and cn in CLASSES:
+          # SomeClass.classmethod: the receiver is a class value of (a subclass of) that class
+          conds.append(z3.And(_is_type_obj(r), cls_in(type_cid(v), cn)))
       out = []
       for st2, side in self.fork(st, z3.Or(conds)):
         if side:
